@@ -47,7 +47,7 @@ def check_bounded_read_loop(R, f, rid_prefix, loop, counter, buff_names, require
         ok = False
         detail = ''
         if arg is not None:
-            cl = rd.closure(arg, cn)
+            cl = rd.closure(arg, cn, stop=lambda x: isinstance(x, ast.Name) and x.id == counter)
             mins = [x for (x, _) in cl if isinstance(x, ast.Call) and isinstance(x.func, ast.Name) and x.func.id == 'min']
             direct = isinstance(arg, ast.Name) and arg.id == counter
             uses_counter = False
